@@ -42,6 +42,7 @@ NAMES = ["a", "b", "c", "d", "e"]
 
 _reported = {}
 _SE = [0]           # number of Series built so far (chooses the index style of the next one)
+_DFC = [0]          # number of integer-labelled frames built so far
 
 
 def report(ctx, signature=None, **kw):
@@ -88,7 +89,16 @@ class Inp:
         if k == "a2":
             return m
         if k == "df":
-            return pd.DataFrame(m, columns=list(self.names))
+            cols = list(self.names)
+            if cols and all(str(n).isdigit() for n in cols):
+                # integer column labels; the default labels 0..c-1 alternately as the RangeIndex pandas puts on `DataFrame(array)`
+                # and as an explicit integer Index (the two are equal as indexes): default-labelled frames have names like any other
+                ic = [int(n) for n in cols]
+                _DFC[0] += 1
+                if ic == list(range(len(ic))) and _DFC[0] % 2 == 0:
+                    return pd.DataFrame(m)
+                return pd.DataFrame(m, columns=ic)
+            return pd.DataFrame(m, columns=cols)
         raise core.Infra("bad container " + k)
 
     def shape(self, mode):
@@ -505,6 +515,9 @@ def bad_inputs(spec, rng):
             out.append(("width", from_matrix(mode, "df", v(1, w - 1))))
             out.append(("names", from_matrix(mode, "df", v(1, w), NAMES[1:w] + NAMES[:1])))    # permuted
         out.append(("names", from_matrix(mode, "df", v(1, w), NAMES[:w - 1] + ["z"])))
+        out.append(("names", from_matrix(mode, "df", v(1, w), [str(i) for i in range(w)])))     # pandas' default labels 0..w-1
+        out.append(("names", from_matrix(mode, "df", v(1, w), NAMES[:w])))
+        out.append(("names", from_matrix(mode, "df", v(1, w), [str(i + 1) for i in range(w)])))  # labels 1..w
         if spec["kind"] == "uni":
             for cont in ("li", "a2", "df"):
                 out.append(("univariate", from_matrix(mode, cont, v(1, 3))))
@@ -525,6 +538,9 @@ def bad_inputs(spec, rng):
             out.append(("width", from_matrix(mode, "a1", v(spec["rows"], 1))))
             out.append(("names", from_matrix(mode, "df", v(spec["rows"], w), NAMES[1:w] + NAMES[:1])))
         out.append(("names", from_matrix(mode, "df", v(spec["rows"], w), NAMES[:w - 1] + ["z"])))
+        out.append(("names", from_matrix(mode, "df", v(spec["rows"], w), [str(i) for i in range(w)])))
+        out.append(("names", from_matrix(mode, "df", v(spec["rows"], w), NAMES[:w])))
+        out.append(("names", from_matrix(mode, "df", v(spec["rows"], w), [str(i + 1) for i in range(w)])))
         if spec["kind"] in ("cdbd", "cdbd1"):
             for cont in D2:
                 out.append(("univariate", from_matrix(mode, cont, v(spec["rows"], 3))))
@@ -710,7 +726,9 @@ def part_b(ctx, drv, only=None):
                     calls = [("update", [from_matrix("stream", A[i], mats[i][0], ["y"], True), from_matrix("stream", A[(i + 1) % L], mats[i][1], ["y"], True)])
                              for i in range(L)]
                 else:
-                    calls = [("set_reference" if (mode == "batch" and i == 0) else "update", [from_matrix(mode, A[i], mats[i])]) for i in range(L)]
+                    # every other history labels its frames with pandas' default labels 0..w-1 instead of names
+                    dfn = [str(j) for j in range(spec["w"])] if h % 2 == 1 else None
+                    calls = [("set_reference" if (mode == "batch" and i == 0) else "update", [from_matrix(mode, A[i], mats[i], dfn)]) for i in range(L)]
                 twin, _ = run_history(spec, calls, case_seed)
                 ctx.traces += 1
                 nd = sum(1 for t in twin if t[1][2:3] == ["D"])
